@@ -42,6 +42,8 @@ class PostHarness:
         if p["h"] == "H2":      # the handler of A posts B (fifo) and C (lifo) from inside its step
             script["A"] = [("call", lambda chart, e: do_post(chart, "fifo", "B", "h" + e.payload)),
                            ("call", lambda chart, e: do_post(chart, "lifo", "C", "h" + e.payload))]
+        if p["h"] == "H6":      # the start state's entry action posts (before the object's thread exists)
+            script["ENTRY_SIGNAL"] = [("post_fifo", "B", "e1"), ("post_lifo", "C", "e2"), ("post_fifo", "B", "e3")]
         with H.QueueSize(p.get("qsize")):
             ao = H.new_ao("ao", H.make_state(script=script), start=False)
             if p["h"] == "H4":
@@ -54,6 +56,7 @@ class PostHarness:
         s.settle()
         ld = ao.locking_deque
         s.fingerprint = lambda: (tuple(H.label_of(x) for x in ld.deque), ld.locking_queue._qsize())
+        early = [x[5] for x in s.log if x[3] == "rtc-begin" and x[4] == "ao"]     # dispatched before the window opens
         s.open_window()
         w0 = s.steps
 
@@ -72,7 +75,7 @@ class PostHarness:
         s.settle()
         ops = [x for x in H.dq_ops(s, "ao") if x[0] >= w0]          # the queue is empty when the window opens
         rtc = [(x[0], x[3], x[5]) for x in s.log if x[3] in ("rtc-begin", "rtc-end") and x[4] == "ao" and x[0] >= w0]
-        return {"posts": posts, "ops": ops, "rtc": rtc,
+        return {"posts": posts, "ops": ops, "rtc": rtc, "early": early,
                 "deque": [H.label_of(x) for x in ld.deque], "tokens": ld.locking_queue._qsize(),
                 "consumer": [t.label for t in s.threads if t.name == "ao"],
                 "maxlen": ld.deque.maxlen,
@@ -87,6 +90,9 @@ class PostHarness:
             return [("%s/%s" % (tag, ex.verdict), "execution ended with %s: %r" % (ex.verdict, ex.obs))]
         o = uniquify(ex.obs)
         out = []
+        if p["h"] == "H6" and o["early"] != ["C/e2", "B/e1", "B/e3"]:
+            out.append((tag + "/start-path-posts", "the start state's entry action posted B/e1 (fifo), C/e2 (lifo), B/e3 (fifo); after start_at "
+                        "the object dispatched %r, expected C/e2, B/e1, B/e3 exactly once each" % (o["early"],)))
         if o["thread_exceptions"]:
             out.append((tag + "/exception", "a thread died: %r" % (o["thread_exceptions"],)))
         # (d) steps never overlap
@@ -193,6 +199,7 @@ def params(tier):
     ps.append({"h": "H4", "posters": [["fifo"]], "sub": "fifo", "npub": 1, "bound": 1 if q else 2})
     ps.append({"h": "H4", "posters": [["lifo"]], "sub": "lifo", "npub": 2, "bound": 1 if q else 2})
     ps.append({"h": "H5", "posters": [["fifo", "fifo"], ["lifo"]], "qsize": 2})
+    ps.append({"h": "H6", "posters": [["fifo"]], "bound": 1})
     if not q:
         ps.append({"h": "H2", "posters": [["lifo"], ["fifo"]]})
         ps.append({"h": "H1", "posters": [["fifo"], ["lifo"], ["fifo"]]})
